@@ -280,3 +280,238 @@ def compare_bytecode(ctx, inputs, impl, model):
     ctx.cov["bytecode"] = {"programs": len(inputs), "compiled": compiled, "distinct_instruction_strings": len(progs),
                            "longest_program_instrs": longest, "opcodes_emitted": dict(ops),
                            "opcodes_never_emitted": [o for o in OPNAMES[1:] if o not in ops]}
+
+
+# ---- C03, ordering clause: "in an ordered list of sources a later one contributes only when the earlier ones have
+# given all they can", evaluated on the postings alone for the fragment where it is easy to state without the Lean Spec
+
+class _Outside(Exception):
+    pass
+
+
+def ordered_expectation(inp):
+    """None when the script is outside the fragment; else dict(asset, amount, dest, leaves, repeated, expected) where
+    expected is None (the sources cannot cover the amount) or the list [(account, amount)] the leaves give, front to back.
+
+    Fragment: the only balance-touching statement is one `send [A n]` (n >= 0) with a plain account as destination and a
+    source that is an ordered list (possibly nested) of `@acct`, `@acct allowing overdraft up to [A k]` and `max [A m] from <such
+    a source>`, everything in asset A, no @world, no unbounded overdraft, no allotment.  A leaf can give balance + overdraft minus
+    what the same account already gave earlier in the list; a `max` caps what passes through it."""
+    stmts = inp["ast"]["stmts"]
+    sends = [s for s in stmts if s["k"] == "send"]
+    if len(sends) != 1 or any(s["k"] not in ("send", "print", "setTxMeta", "setAccountMeta") for s in stmts):
+        return None
+    st = sends[0]
+    if st["amt"]["k"] != "mon" or st["src"]["k"] != "src" or st["dst"]["k"] != "acct":
+        return None
+    env, bal, acct_of, asset_of = resolve_env(inp)
+
+    def mon(e):
+        try:
+            m = eval_mon(e, env, asset_of)
+        except Exception:
+            m = None
+        if not m or m[0] is None or m[1] < 0:
+            raise _Outside()
+        return m
+
+    given, out, leaves = collections.Counter(), [], []
+
+    def give(s, limit, asset):
+        if s["k"] == "acct":
+            a = acct_of(s["e"])
+            if a is None or a == "world":
+                raise _Outside()
+            o, od = 0, s.get("od")
+            if od is not None:
+                if od["k"] != "upto":
+                    raise _Outside()
+                oa, o = mon(od["e"])
+                if oa != asset:
+                    raise _Outside()
+            leaves.append(a)
+            g = min(max(0, bal.get((a, asset), 0) + o - given[a]), limit)
+            if g > 0:
+                given[a] += g
+                out.append((a, g))
+            return g
+        if s["k"] == "max":
+            ca, c = mon(s["cap"])
+            if ca != asset:
+                raise _Outside()
+            return give(s["s"], min(limit, c), asset)
+        if s["k"] != "inorder":
+            raise _Outside()
+        tot = 0
+        for x in s["ss"]:
+            tot += give(x, limit - tot, asset)
+        return tot
+    try:
+        asset, n = mon(st["amt"]["e"])
+        dest = acct_of(st["dst"]["e"])
+        if dest is None:
+            return None
+        tot = give(st["src"]["s"], n, asset)
+    except (_Outside, KeyError, TypeError):
+        return None
+    seen_at = {}
+    for k, a in enumerate(leaves):
+        seen_at.setdefault(a, []).append(k)
+    return {"asset": asset, "amount": n, "dest": dest, "leaves": len(leaves),
+            "repeated": any(b - a > 1 for ps in seen_at.values() for a, b in zip(ps, ps[1:])),
+            "expected": merge_adjacent(out) if tot == n else None}
+
+
+def merge_adjacent(pairs):
+    out = []
+    for a, g in pairs:
+        if g == 0:
+            continue
+        if out and out[-1][0] == a:
+            out[-1] = (a, out[-1][1] + g)
+        else:
+            out.append((a, g))
+    return out
+
+
+def ordered_sources_verdict(inp, out, stats=None):
+    """None, or what is wrong with the order in which the postings of `out` drain the sources of `inp`"""
+    if "postings" not in out:
+        return None
+    try:
+        ex = ordered_expectation(inp)
+    except Exception:
+        ex = None
+    if ex is None:
+        return None
+    got = merge_adjacent([(p[0], int(p[2])) for p in out["postings"]])
+    if stats is not None:
+        stats["evaluated"] += 1
+        stats["with_an_account_at_two_non_adjacent_places"] += 1 if ex["repeated"] else 0
+        stats["several_sources_contribute"] += 1 if len(got) > 1 else 0
+    stray = [p for p in out["postings"] if int(p[2]) != 0 and (p[1] != ex["dest"] or p[3] != ex["asset"])]
+    want = ex["expected"]
+    if want is None:
+        return "the ordered sources can give less than the %d %s asked for, yet the send went through: %s" % (ex["amount"], ex["asset"], got)
+    if stray:
+        return "a posting goes elsewhere than %s / %s: %s" % (ex["dest"], ex["asset"], stray[0])
+    if got != want:
+        k = next((j for j in range(min(len(got), len(want))) if got[j] != want[j]), min(len(got), len(want)))
+        return ("sources are not drained in order: giving all they can front to back yields %s, the postings say %s (first difference at "
+                "contribution %d)" % (want, got, k))
+    return None
+
+
+# ---- a violation must come with cases that show it again: when the case alone (fresh process) does not, something an
+# earlier execution left in the process is part of the cause — find that execution
+
+def exec_cases(ctx, cases, tag="iso"):
+    """the outputs of `cases`, executed in this order in ONE fresh harness process (None when the harness failed)"""
+    rows = [dict(c, id=k) for k, c in enumerate(cases)]
+    inf, outf = ctx.path(tag + ".in.jsonl"), ctx.path(tag + ".out.jsonl")
+    write_jsonl(inf, rows)
+    p = run_harness(["numscript", "exec", "-in", inf, "-out", outf], timeout=900)
+    if p.returncode != 0:
+        return None
+    res = {r["id"]: r["out"] for r in read_jsonl(outf)}
+    return [res.get(k) for k in range(len(rows))]
+
+
+class Replays:
+    def __init__(self, ctx, order):
+        self.ctx, self.order, self.polluters, self.per_sig = ctx, order, [], collections.Counter()
+        self.stats, self.first = collections.Counter(), {}
+
+    def violation(self, sig, what, inp, observed, shows, extra=None, per_sig=3):
+        """record the violation with the shortest list of cases (one process, this order) whose LAST one shows it"""
+        key = canon(sig)
+        self.per_sig[key] += 1
+        if self.per_sig[key] > per_sig:      # same signature: enough concrete replays; count it under the first one
+            self.stats["further_occurrences_only_counted"] += 1
+            self.ctx.violation(*self.first[key])
+            return
+        rp = self.concrete(inp, observed, shows)
+        rp.update(extra or {})
+        if "inputs" in rp:
+            sig = dict(sig, state="left-behind-by-an-earlier-execution")
+            what += "  [shows only after another execution in the same process: %d case(s) before it in the replay]" % (len(rp["inputs"]) - 1)
+        self.first.setdefault(key, (sig, what, rp))
+        self.ctx.violation(sig, what, rp)
+
+    def concrete(self, inp, observed, shows):
+        base = {"area": "numscript", "input": inp, "observed": observed}
+        alone = exec_cases(self.ctx, [inp])
+        if alone is None or shows(alone[0]):
+            self.stats["shows_alone"] += 1
+            return base
+        self.stats["needs_an_earlier_execution"] += 1
+        for p in self.polluters:
+            r = exec_cases(self.ctx, [p, inp])
+            if r and shows(r[1]):
+                return {"area": "numscript", "inputs": [p, inp], "observed": r[1], "alone": alone[0]}
+        pos = next((k for k, c in enumerate(self.order) if c["id"] == inp["id"]), None)
+        if pos is None:
+            return base
+        lo, hi = 0, pos        # with the first `hi` cases before it the violation shows (the run itself), with `lo` it does not
+        while hi - lo > 1:
+            mid = (lo + hi) // 2
+            r = exec_cases(self.ctx, self.order[:mid] + [inp])
+            if r and shows(r[-1]):
+                hi = mid
+            else:
+                lo = mid
+        if hi == 0:
+            return base
+        p = self.order[hi - 1]
+        r = exec_cases(self.ctx, [p, inp])
+        if r and shows(r[1]):
+            self.polluters.append(p)
+            return {"area": "numscript", "inputs": [p, inp], "observed": r[1], "alone": alone[0]}
+        # several earlier executions are needed: drop chunks of the prefix while the violation still shows
+        cases, budget = self.order[:hi], 120
+        chunk = max(1, len(cases) // 2)
+        while budget > 0:
+            k = 0
+            while k < len(cases) and budget > 0:
+                trial = cases[:k] + cases[k + chunk:]
+                budget -= 1
+                r = exec_cases(self.ctx, trial + [inp])
+                if r and shows(r[-1]):
+                    cases = trial
+                else:
+                    k += chunk
+            if chunk == 1:
+                break
+            chunk = max(1, chunk // 2)
+        r = exec_cases(self.ctx, cases + [inp])
+        return {"area": "numscript", "inputs": cases + [inp], "observed": (r or [observed])[-1], "alone": alone[0]}
+
+
+def order_dependence(ctx, inputs, impl, rp, prop, cls):
+    """every case again, in the opposite order, in another process: an outcome that depends on what ran before it in the
+    process means an execution left something behind"""
+    rev = list(reversed(inputs))
+    res = exec_cases(ctx, rev, tag="reverse")
+    if res is None:
+        ctx.l2_broken.append({"stream": "numscript-reverse-exec", "detail": "harness failed"})
+        return 0
+    n = 0
+    for inp, o2 in zip(rev, res):
+        o1 = impl.get(inp["id"])
+        if canon(o1) == canon(o2):
+            continue
+        n += 1
+        rp.per_sig[cls] += 1
+        if rp.per_sig[cls] > 3:
+            continue
+        alone = exec_cases(ctx, [inp])
+        if alone is None:
+            continue
+        a = alone[0]
+        bad, order = (o1, inputs) if canon(o1) != canon(a) else (o2, rev)
+        sub = Replays(ctx, order)
+        sub.polluters = rp.polluters
+        r = sub.concrete(inp, bad, lambda o: canon(o) != canon(a))
+        ctx.violation({"property": prop, "class": cls, "state": "left-behind-by-an-earlier-execution"},
+                      "the outcome of an execution depends on what was executed before it in the same process", r)
+    return n
